@@ -16,10 +16,10 @@ def bootstrap(x64: bool = True, devices: int | None = None, threads: int = 1):
     if _done:
         return
     flags = []
-    if threads == 1:
-        flags += ["--xla_cpu_multi_thread_eigen=false", "intra_op_parallelism_threads=1"]
     if devices:
         flags += [f"--xla_force_host_platform_device_count={devices}"]
+    if threads == 1:
+        flags += ["--xla_cpu_multi_thread_eigen=false", "intra_op_parallelism_threads=1"]
     os.environ["XLA_FLAGS"] = " ".join(flags)
     os.environ.setdefault("JAX_PLATFORMS", "cpu")
     os.environ["JAX_ENABLE_X64"] = "1" if x64 else "0"
